@@ -194,7 +194,8 @@ class SimulationFixedTimes(Simulation):
         jump_increment = self.process.model.jump_increment
         increments = [jump_increment(n=nbOfJumps) for nbOfJumps in all_nb_of_jumps]
         jump_values = np.array([np.sum(increment) for increment in increments])
-        return jump_values
+        # value of the jump part at each date = running sum of the interval totals
+        return np.cumsum(jump_values)
 
     def simulate_diffusion(self, sqrt_dts):
         stddev = sqrt_dts * self.process.model.diffusion_coefficient()
